@@ -5,17 +5,21 @@
 (* behave identically on every document of the universe.                   *)
 (***************************************************************************)
 EXTENDS Equality, TLC
-CONSTANTS MolEqIgnoresKeyIndex, Shard, NShards
+CONSTANTS MolEqIgnoresKeyIndex, ArgsLoose, Shard, NShards
 I(n) == IntV(n)
 Sa == StrV(<<97>>)  Sb == StrV(<<98>>)
 Lf(d, pre, fn, v) == Leaf(d, pre, fn, <<>>, KwValue(v))
 A1 == Lf("value", "none", "equal_to", I(1))
-A1b == Lf("value", "none", "equal_to", BoolV(TRUE))          \* == A1 under python equality of arguments
+A1b == Lf("value", "none", "equal_to", BoolV(TRUE))          \* == A1 under python equality of arguments, not under typed equality
+Rg(lo, hi) == Leaf("value", "none", "in_range", <<>>, <<Kw("lower", NC("lower"), lo), Kw("upper", NC("upper"), hi)>>)
+R1 == Rg(I(1), I(5))
+R1f == Rg(V("float", 8, <<>>), I(5))       \* in_range(1.0, 5): range() refuses the bound - nothing is accepted
+R1b == Rg(BoolV(TRUE), I(5))               \* in_range(True, 5): behaves as R1
 A2 == Lf("value", "none", "less_than", I(2))
 A3 == Lf("value", "dtype", "equal_to", TypeV(TInt))
 A4 == Lf("value", "length", "equal_to", I(1))
 K1 == KeyEq(Sa)  K2 == KeyEq(Sb)  X1 == IndexEq(I(0))  X2 == IndexEq(I(1))
-Conds == <<Null, A1, A1b, A2, A3, A4, K1, K2, X1, X2, Bin("and", A1, A2), Bin("and", A2, A1), Bin("or", A1, A2),
+Conds == <<Null, A1, A1b, A2, A3, A4, K1, K2, X1, X2, R1, R1f, R1b, Bin("or", R1, A3), Bin("or", A3, R1f), Bin("and", A1, A2), Bin("and", A2, A1), Bin("or", A1, A2),
            Bin("and", Bin("and", A1, A2), A3), Bin("and", A1, Bin("and", A2, A3)), Bin("and", A3, Bin("and", A2, A1)),
            Bin("xor", A3, A4), Bin("xor", A4, A3), Bin("and", K1, A2), Bin("and", A2, K1)>>
 Parts == <<Part("map", K1, Null, Null, None), Part("map", K2, Null, Null, None), Part("map", K1, Null, Null, Sa),
@@ -35,7 +39,7 @@ Init == /\ kind \in {"cond", "part"}
         /\ (a + b) % NShards = Shard
 Next == UNCHANGED <<kind, a, b, c>>
 U == IF kind = "cond" THEN Conds ELSE Parts
-Eq(x, y) == IF kind = "cond" THEN TermEq(x, y) ELSE PartEq(x, y, MolEqIgnoresKeyIndex)
+Eq(x, y) == IF kind = "cond" THEN TermEqG(x, y, ArgsLoose) ELSE PartEq(x, y, MolEqIgnoresKeyIndex)
 Equivalence == /\ Eq(U[a], U[a])
                /\ Eq(U[a], U[b]) = Eq(U[b], U[a])
                /\ (Eq(U[a], U[b]) /\ Eq(U[b], U[c])) => Eq(U[a], U[c])
